@@ -504,4 +504,122 @@ theorem merge_rows_read {lhs rhs : MechTable} (hl : WF lhs) (hr : WF rhs) (hc : 
       (fun k hk => by simpa [colsOf] using rhsOnly_lt (colsOf lhs) (colsOf rhs) k hk))
     simp only [List.length_map] at this
     rw [this]
+/-! ### `lhs_only_row` and the row of an unmatched right row -/
+
+theorem lhs_only_row_read {lhs : MechTable} (hl : WF lhs) (i : Nat) :
+    readRow (lhs.data.map Prod.fst) (lhs_only_row lhs i) = rowAt lhs i := by
+  unfold lhs_only_row
+  simp only [readRow, rowAt, List.map_map, iter, list_fmap, HashMap.collect]
+  apply List.map_congr_left
+  intro e he
+  simp only [Function.comp]
+  have hnd : ((lhs.data.map (fun (x : Nat × ValueKind × Matrix Value) => (x.1, cellById lhs i x.1))).map Prod.fst).Nodup := by
+    rw [List.map_map]; exact hl.ids_nodup
+  have := get_foldl_insert_mem (α := Nat × Value) Prod.fst Prod.snd (fun m p => HashMap.insert m p.1 p.2) (fun _ _ => rfl)
+    (lhs.data.map (fun x => (x.1, cellById lhs i x.1))) [] (e.1, cellById lhs i e.1) hnd
+    (List.mem_map.2 ⟨e, he, rfl⟩)
+  simp only at this
+  have h2 : (List.map (fun (x : Nat × ValueKind × Matrix Value) =>
+      match x with
+      | (lhs_id, _) => (lhs_id, Option.getD ((fun (x : ValueKind × Matrix Value) => match x with | (_, col) => index1d col i) <$> AList.get lhs.data lhs_id) Value.Empty)) lhs.data)
+      = lhs.data.map (fun x => (x.1, cellById lhs i x.1)) := by
+    apply List.map_congr_left
+    rintro ⟨a, b⟩ _; rfl
+  rw [h2, this, cellById_of_mem hl i he]; rfl
+
+/-- the value the unmatched-right pass puts into the left column `id` -/
+def unmatchedLhsVal (lhs rhs : MechTable) (j : Nat) (id : Nat) : Value :=
+  match (ccIds lhs rhs).find? (fun p => p.1 == id) with
+  | some p => cellById rhs j p.2
+  | none => Value.Empty
+
+def unmatchedRow (lhs rhs : MechTable) (j : Nat) : HashMap Nat Value :=
+  (roData lhs rhs).foldl (fun row e => HashMap.insert row e.1 (cellById rhs j e.1))
+    (lhs.data.foldl (fun row e => HashMap.insert row e.1 (unmatchedLhsVal lhs rhs j e.1)) HashMap.new)
+
+theorem map_eq_map_range {α β : Type} : ∀ (xs : List α) (F : α → β) (G : Nat → β),
+    (∀ i e, xs[i]? = some e → F e = G i) → xs.map F = (List.range xs.length).map G := by
+  intro xs
+  induction xs with
+  | nil => intro F G _; rfl
+  | cons y ys ih =>
+    intro F G h
+    rw [List.length_cons, List.range_succ_eq_map, List.map_cons, List.map_cons, List.map_map,
+      ih F (G ∘ Nat.succ) (fun i e he => h (i + 1) e (by simpa using he)), h 0 y rfl]
+
+theorem unmatchedLhsVal_eq {lhs rhs : MechTable} (hl : WF lhs) (hr : WF rhs) (j i : Nat)
+    (el : Nat × ValueKind × Matrix Value) (hel : lhs.data[i]? = some el) :
+    (unmatchedLhsVal lhs rhs j el.1).cell =
+      (match (commonCols (colsOf lhs) (colsOf rhs)).find? (fun p => p.1 == i) with
+       | some p => cellAt (rowAt rhs j) p.2
+       | none => none) := by
+  unfold unmatchedLhsVal
+  cases hf : (ccIds lhs rhs).find? (fun p => p.1 == el.1) with
+  | some p =>
+    obtain ⟨l, r⟩ := p
+    have hp := List.find?_some hf
+    have hm := List.mem_of_find?_eq_some hf
+    simp only [beq_iff_eq] at hp; subst hp
+    obtain ⟨n, _, hrn⟩ := (mem_ccIds hr _ _).1 hm
+    obtain ⟨j', er, her, rfl⟩ := pos_of_id (hr.id_mem_data hrn)
+    have hcc := (bridge hl hr i j').2 ⟨el, er, hel, her, hm⟩
+    cases hf' : (commonCols (colsOf lhs) (colsOf rhs)).find? (fun p => p.1 == i) with
+    | none =>
+      have := List.find?_eq_none.1 hf' _ hcc
+      simp at this
+    | some q =>
+      obtain ⟨i', j''⟩ := q
+      have hq := List.find?_some hf'
+      have hqm := List.mem_of_find?_eq_some hf'
+      simp only [beq_iff_eq] at hq; subst hq
+      have := commonCols_unique _ _ hqm hcc
+      subst this
+      simp only [cellById_of_mem hr j (List.mem_of_getElem? her), cellAt_rowAt rhs j _ er her]
+  | none =>
+    cases hf' : (commonCols (colsOf lhs) (colsOf rhs)).find? (fun p => p.1 == i) with
+    | none => rfl
+    | some q =>
+      obtain ⟨i', j'⟩ := q
+      have hq := List.find?_some hf'
+      have hqm := List.mem_of_find?_eq_some hf'
+      simp only [beq_iff_eq] at hq; subst hq
+      obtain ⟨el', er, hel', _, hcc⟩ := (bridge hl hr i' j').1 hqm
+      rw [hel] at hel'; cases hel'
+      have := List.find?_eq_none.1 hf _ hcc
+      simp at this
+
+theorem unmatchedRow_read {lhs rhs : MechTable} (hl : WF lhs) (hr : WF rhs) (hc : Compat lhs rhs) (j : Nat) :
+    readRow (lhs.data.map Prod.fst ++ (roData lhs rhs).map Prod.fst) (unmatchedRow lhs rhs j) =
+      padLeft (colsOf lhs).length (commonCols (colsOf lhs) (colsOf rhs)) (rhsOnly (colsOf lhs) (colsOf rhs)) (rowAt rhs j) := by
+  simp only [readRow, List.map_append, List.map_map, unmatchedRow, padLeft]
+  congr 1
+  · have hlen : (colsOf lhs).length = lhs.data.length := by simp [colsOf]
+    rw [hlen]
+    apply map_eq_map_range
+    intro i e he
+    simp only [Function.comp]
+    rw [get_foldl_insert_not_mem Prod.fst _ _ (fun _ _ => rfl)]
+    · rw [get_foldl_insert_mem Prod.fst (fun e => unmatchedLhsVal lhs rhs j e.1) _ (fun _ _ => rfl) _ _ e hl.ids_nodup
+        (List.mem_of_getElem? he)]
+      simp only [Option.getD_some]
+      exact unmatchedLhsVal_eq hl hr j i e he
+    · intro hmem
+      obtain ⟨e', he', hid⟩ := List.mem_map.1 hmem
+      exact roData_disjoint hl hr hc he' (by rw [hid]; exact List.mem_map.2 ⟨e, List.mem_of_getElem? he, rfl⟩)
+  · have : List.map ((fun id => ((AList.get
+          ((roData lhs rhs).foldl (fun row e => HashMap.insert row e.1 (cellById rhs j e.1))
+            (lhs.data.foldl (fun row e => HashMap.insert row e.1 (unmatchedLhsVal lhs rhs j e.1)) HashMap.new)) id).getD
+              Value.Empty).cell) ∘ Prod.fst) (roData lhs rhs) =
+        (roData lhs rhs).map (fun e => (index1d e.2.2 j).cell) := by
+      apply List.map_congr_left
+      intro e he
+      simp only [Function.comp]
+      rw [get_foldl_insert_mem Prod.fst (fun e => cellById rhs j e.1) _ (fun _ _ => rfl) _ _ e (roData_nodup hr) he,
+        cellById_of_mem hr j (List.mem_filter.1 he).1]
+      rfl
+    rw [this, roData, rhs_only_data hl hr,
+      filterMap_getElem_map rhs.data (fun e => (index1d e.2.2 j).cell) none _
+        (fun k hk => by simpa [colsOf] using rhsOnly_lt _ _ k hk)]
+    rfl
+
 end MechVerif.JoinIR
